@@ -4,6 +4,7 @@ import (
 	"bytes"
 	"context"
 	"fmt"
+	"io"
 	"sort"
 
 	"github.com/0chain/common/core/util"
@@ -59,12 +60,45 @@ func (w *world) checkNode(where string, key util.Key, n util.Node) {
 			w.fail("c14.roundtrip", "rehash-differs:"+nodeKind(n), "%s: decoded node hashes to %x, original %x", where, d.GetHashBytes(), hb)
 			return
 		}
+		// the decoder takes an io.Reader: one that hands the bytes out a few at a time (a network stream, a
+		// buffered reader at a boundary) must give the same node
+		if len(enc) < 4096 {
+			for _, chunk := range []int{1, 7} {
+				d2, err := util.CreateNode(&chunkReader{b: enc, n: chunk})
+				if err != nil || !bytes.Equal(d2.Encode(), enc) {
+					w.fail("c14.roundtrip", "short-reads-differ:"+nodeKind(n), "%s: decoding node %x from a reader that returns %d byte(s) per Read gives %v / another node", where, key, chunk, err)
+					return
+				}
+			}
+		}
 		// statecache copy must be equivalent as well
 		c, ok := n.Clone().(util.Node)
 		if !ok || !bytes.Equal(c.GetHashBytes(), hb) {
 			w.fail("c14.roundtrip", "clone-differs:"+nodeKind(n), "%s: Clone() of node %x hashes differently", where, key)
 		}
 	})
+}
+
+// chunkReader returns at most n bytes per Read (legal for an io.Reader).
+type chunkReader struct {
+	b []byte
+	n int
+}
+
+func (c *chunkReader) Read(p []byte) (int, error) {
+	if len(c.b) == 0 {
+		return 0, io.EOF
+	}
+	k := c.n
+	if k > len(p) {
+		k = len(p)
+	}
+	if k > len(c.b) {
+		k = len(c.b)
+	}
+	copy(p, c.b[:k])
+	c.b = c.b[k:]
+	return k, nil
 }
 
 func (w *world) checkDB(where string, db util.NodeDB) {
@@ -325,7 +359,9 @@ func (w *world) opLose(t *inst, op Op) {
 	}
 	var missing []util.Key
 	var merr error
-	if w.guard("GetAllMissingNodes", func() { missing, merr = fresh.GetAllMissingNodes() }) {
+	// (asked of another cold trie object: on the one above HasMissingNodes has already cached every present node)
+	cold := util.NewMerklePatriciaTrie(t.db, util.Sequence(t.ver), root, w.newCache())
+	if w.guard("GetAllMissingNodes", func() { missing, merr = cold.GetAllMissingNodes() }) {
 		return
 	}
 	_ = merr
@@ -336,6 +372,15 @@ func (w *world) opLose(t *inst, op Op) {
 	if len(got) != len(frontier) || !subset(got, frontier) {
 		w.fail("c17.detect", "missing-set", "GetAllMissingNodes reported %d keys, the absent nodes reachable through present ones are %d", len(got), len(frontier))
 		return
+	}
+	if w.s.Scribble {
+		// the key list belongs to the caller (it recycles its request buffers after fetching the nodes)
+		for _, k := range missing {
+			for i := range k {
+				k[i] ^= 0x77
+			}
+		}
+		w.stats.Inc("fault.scribble-on-returned-missing-keys")
 	}
 	// lookups
 	for _, k := range sim.SortedKeys(before) {
